@@ -857,6 +857,12 @@ func runCanAddr(c *core.Ctx) []core.Obligation {
 					}
 				}
 			}
+			// canAddr && p.Implements(…) as a switch case is a φ of the short-circuit
+			for _, a := range trueAtoms(ci.Block(), 0) {
+				if own != nil && a == ssa.Value(own) {
+					guarded = true
+				}
+			}
 			key := "canaddr:pointer-receiver:" + callee.Name()
 			if guarded {
 				b.addP(props, core.Discharged, key, c.InstrPos(ci), "installed only on the canAddr branch")
@@ -1201,5 +1207,67 @@ func runThriftType(c *core.Ctx) []core.Obligation {
 			b.addP(props, core.Violation, key2, c.FuncPos(sel), "the codec selected for enum fields does not call "+side.prim+": its payload is not the i32 that the field header announces")
 		}
 	}
+	// 3. the three places that special-case enum fields do so for the same kinds: the announced
+	// type (typeOfStructField), the writer's codec and the reader's codec
+	kindsOf := func(fnKey string) (kset, *ssa.Function) {
+		fn := c.Lookup(fnKey)
+		if fn == nil {
+			return 0, nil
+		}
+		var set kset
+		for _, blk := range fn.Blocks {
+			for _, in := range blk.Instrs {
+				call, ok := in.(*ssa.Call)
+				if !ok || call.Common().Method == nil || call.Common().Method.Name() != "Kind" {
+					continue
+				}
+				flow := kindFlow(fn, call)
+				for _, r := range returnsOf(fn) {
+					if !underEnumFlag(r.Block(), enumBit) || len(r.Results) != 1 {
+						continue
+					}
+					special := false
+					if k, isK := constInt(r.Results[0]); isK && k == i32 {
+						special = true
+					}
+					rv := r.Results[0]
+					if ct, ok := rv.(*ssa.ChangeType); ok {
+						rv = ct.X
+					}
+					if _, isF := rv.(*ssa.Function); isF {
+						special = true
+					}
+					if special && flow[r.Block()] != allKinds {
+						set |= flow[r.Block()]
+					}
+				}
+			}
+		}
+		return set, fn
+	}
+	kt, f1 := kindsOf("thrift.typeOfStructField")
+	kw, f2 := kindsOf("thrift.encodeFuncStructFieldOf")
+	kr, f3 := kindsOf("thrift.decodeFuncStructFieldOf")
+	key3 := "thrifttype:enum:same-kinds"
+	names := func(s kset) string {
+		var out []string
+		for k := int64(1); k < 27; k++ {
+			if s&(1<<uint(k)) != 0 {
+				out = append(out, kindNames[k])
+			}
+		}
+		return strings.Join(out, ",")
+	}
+	switch {
+	case f1 == nil || f2 == nil || f3 == nil:
+		b.addP(props, core.Undecided, key3, "-", "typeOfStructField / encodeFuncStructFieldOf / decodeFuncStructFieldOf not found")
+	case kt == 0 || kw == 0 || kr == 0:
+		b.addP(props, core.Undecided, key3, c.FuncPos(f1), "the kinds under which enum fields are special-cased could not be extracted")
+	case kt != kw || kw != kr:
+		b.addP(props, core.Violation, key3, c.FuncPos(f2), fmt.Sprintf("enum fields are announced as I32 for kinds {%s}, written as 32 bits for {%s} and read as 32 bits for {%s}: for a kind in one set but not another the writer emits a payload of a different width than the header announces and the reader consumes, and everything after that field is misread", names(kt), names(kw), names(kr)))
+	default:
+		b.addP(props, core.Discharged, key3, c.FuncPos(f2), "announced type, writer codec and reader codec special-case enums for the same kinds {"+names(kt)+"}")
+	}
+
 	return b.out
 }
